@@ -198,3 +198,37 @@ func SolveNonceLast(c Block, prefix, j0 []byte) []byte {
 	b := mul(mul(load(j0), hinv).xor(l), hinv).xor(y)
 	return append(append([]byte(nil), prefix...), b.bytes()...)
 }
+
+// GHashStream is GHASH fed incrementally (for inputs too long to concatenate in memory).
+type GHashStream struct {
+	h, y el
+}
+
+func NewGHashStream(h []byte) *GHashStream { return &GHashStream{h: load(h)} }
+
+// Blocks absorbs b, zero-padded to a whole number of blocks (call once per logical field: A, then C).
+func (g *GHashStream) Blocks(b []byte) {
+	for len(b) >= 16 {
+		g.y = mul(g.y.xor(load(b[:16])), g.h)
+		b = b[16:]
+	}
+	if len(b) > 0 {
+		var last [16]byte
+		copy(last[:], b)
+		g.y = mul(g.y.xor(load(last[:])), g.h)
+	}
+}
+
+// Sum absorbs the length block [len(A)]_64 || [len(C)]_64 (in bits) and returns S.
+func (g *GHashStream) Sum(aadLen, ctLen int) []byte {
+	y := mul(g.y.xor(load(lenBlock(aadLen, ctLen))), g.h)
+	return y.bytes()
+}
+
+// CounterBlock returns the i-th counter block after J0 (i >= 1 is the block that encrypts plaintext block i-1).
+func CounterBlock(j0 []byte, i uint32) []byte {
+	cb := append([]byte(nil), j0...)
+	c := binary.BigEndian.Uint32(cb[12:])
+	binary.BigEndian.PutUint32(cb[12:], c+i)
+	return cb
+}
